@@ -627,7 +627,9 @@ func (cx *Ctx) validateBoundsFee(r *Report) bool {
 	v := cx.P.SSA.FuncValue(sel.Obj().(*types.Func))
 	// every success exit of Validate holds the fact Fee < 1 (directly or through a
 	// validator helper that returned nil)
-	return cx.acceptsOnlyWhen(v, true, "LegacyDec.LT(", ".Fee, math.LegacyOneDec())")
+	// (.Fee#0: the field seen through a checked type assertion, v, ok := i.(LegacyDec))
+	return cx.acceptsOnlyWhen(v, true, "LegacyDec.LT(", ".Fee, math.LegacyOneDec())") ||
+		cx.acceptsOnlyWhen(v, true, "LegacyDec.LT(", ".Fee#0, math.LegacyOneDec())")
 }
 
 // acceptsOnlyWhen: every success exit of fn is dominated by a fact (possibly
